@@ -213,3 +213,16 @@ Proof. exists (-1, 0, 0). vm_compute. repeat split. Qed.
 Lemma from_axes_step2_partial n : n = (0, 1, 0) \/ n = (0, -1, 0) ->
   rotpi n (0, 1, 0) = (0, 1, 0) /\ rotpi n (1, 0, 0) = (-1, 0, 0).
 Proof. intros [->| ->]; vm_compute; split; reflexivity. Qed.
+
+(** ---- local_coordinates: the sampling grid is centred on the molecule ----
+    index k and its mirror image (s - 1 - k) lie symmetrically about the grid centre, for odd and even lengths alike *)
+Require Import QArith Lqa.
+Lemma lc_center_spec (s : Z) : (lc_center s == (inject_Z s - 1) / (2#1))%Q.
+Proof. unfold lc_center. field. Qed.
+Lemma lc_point_symmetric (s k : Z) :
+  ((inject_Z k - lc_center s) + (inject_Z (s - 1 - k) - lc_center s) == 0)%Q.
+Proof.
+  rewrite lc_center_spec. unfold Z.sub. rewrite !inject_Z_plus, !inject_Z_opp. change (inject_Z 1) with 1%Q. field.
+Qed.
+Lemma lc_shift_spec (p scale : Q) : (lc_shift p scale == p / scale)%Q.
+Proof. reflexivity. Qed.
